@@ -96,6 +96,8 @@ pub struct WalletCfg {
     pub tx_density: u64,   // percent of blocks that carry transactions
     pub own_pct: u64,      // percent of outputs addressed to the wallet
     pub spend_pct: u64,    // chance (percent) that a transaction spends an own note
+    /// pools in which wallet accounts receive notes (others only carry foreign traffic)
+    pub own_pools: Vec<Pool>,
 }
 
 pub struct WalletSim {
@@ -175,6 +177,7 @@ pub fn draw_cfg(ch: &mut Choices, shard_edge: bool) -> WalletCfg {
         tx_density: *ch.pick("cfg.density", &[45u64, 15, 80]),
         own_pct: *ch.pick("cfg.own", &[60u64, 30, 90]),
         spend_pct: *ch.pick("cfg.spend", &[35u64, 10, 70]),
+        own_pools: POOLS.to_vec(),
     }
 }
 
@@ -285,7 +288,7 @@ impl WalletSim {
                 let n_out = r.below(4);
                 for _ in 0..n_out {
                     let p = pools[r.below(pools.len() as u64) as usize];
-                    let dest = if r.below(100) < self.cfg.own_pct {
+                    let dest = if r.below(100) < self.cfg.own_pct && self.cfg.own_pools.contains(&p) {
                         Dest::Own(r.below(self.cfg.n_accounts as u64) as usize, if r.below(3) == 0 { zip32::Scope::Internal } else { zip32::Scope::External })
                     } else {
                         Dest::Foreign
